@@ -71,10 +71,11 @@ VARIABLES
   result,              \* "none" | "returned" | "suspended"
   snap,                \* snap[i] : bodies that were executing when branch i finished / parked (its callback began)
   suspSnap,            \* snap of the callback that decided to suspend
-  resub                \* branches resubmitted by the timer thread
+  resub,               \* branches resubmitted by the timer thread
+  chk                  \* branches whose current checkpoint passed the orphan check and is not enqueued yet
 
 vars == <<bst, wph, bpos, sub, fout, scanIdx, scanT, scanI, succ, fail, event, suspExc, timers, mpc, mi, reg, pdone, parentSent,
-          items, reason, active, maxActive, decidedAt, outcomeAt, late, known, result, snap, suspSnap, resub>>
+          items, reason, active, maxActive, decidedAt, outcomeAt, late, known, result, snap, suspSnap, resub, chk>>
 
 Atom(i) == IF bpos[i] <= Len(Script[i]) THEN Script[i][bpos[i]] ELSE "ok"
 
@@ -87,7 +88,7 @@ Init ==
   /\ reg = {} /\ pdone = {} /\ parentSent = FALSE
   /\ items = <<>> /\ reason = "none"
   /\ active = 0 /\ maxActive = 0 /\ decidedAt = <<>> /\ outcomeAt = <<>> /\ late = {} /\ known = {} /\ result = "none"
-  /\ snap = [i \in Br |-> {}] /\ suspSnap = {} /\ resub = {}
+  /\ snap = [i \in Br |-> {}] /\ suspSnap = {} /\ resub = {} /\ chk = {}
 
 ---------------------------------------------------------------------------
 \* Completion policy (transcription of ExecutionCounters / BatchResult._get_completion_reason)
@@ -210,39 +211,58 @@ End(i, o, l, k) == BSet(i, reg, sub[i], bpos[i], o, "done", active - 1, l, k)
 
 LateU(i) == IF parentSent THEN late \cup {<<i, "update">>} ELSE late
 
-\* one micro-step of branch i's body
-BodyStep(i) ==
-  /\ wph[i] = "run"
+\* create_checkpoint = orphan check under _parent_done_lock, THEN (outside the lock) the put on the checkpoint queue.
+\* Both are separate steps (faithful): `chk` holds the branches that passed the check and have not enqueued yet.
+\* An update enqueued after the parent's completion record although its check passed before is tagged "update-race".
+IsCkptPhase(i) == sub[i] \in {"ctxStart", "start", "succeed"} \/ (sub[i] = "atom" /\ Atom(i) \in {"ok", "fail"})
+CkOp(i) == IF sub[i] \in {"start", "succeed"} THEN StepOp(i) ELSE Ctx(i)
+CkPar(i) == IF sub[i] \in {"start", "succeed"} THEN Ctx(i) ELSE <<"p">>
+\* after a resubmission the branch context exists already: no START is sent for it
+CtxExists(i) == sub[i] = "ctxStart" /\ Ctx(i) \in reg
+
+BodyCheck(i) ==
+  /\ wph[i] = "run" /\ i \notin chk /\ IsCkptPhase(i) /\ ~CtxExists(i)
+  /\ IF Rejected(CkOp(i), CkPar(i))
+       THEN End(i, "orphan", late, known) /\ chk' = chk
+       ELSE chk' = chk \cup {i} /\ UNCHANGED <<reg, sub, bpos, fout, wph, active, late, known>>
+
+\* With the repaired check a passed check means the parent had not completed AT CHECK TIME; if its completion record has been
+\* handed over by the time of the put, the update slipped behind it: tag "...-race" (the named, unrepaired deviation).
+\* On the pinned original a never-seen operation passes the check even after the parent completed: tags "update" / "fn".
+LateTag(i, first) ==
+  IF ~parentSent THEN late
+  ELSE IF first /\ ~FixOrphanParent THEN late \cup {<<i, "update">>, <<i, "fn">>}
+  ELSE IF first THEN late \cup {<<i, "update-race">>, <<i, "fn-race">>}
+  ELSE late \cup {<<i, "update-race">>}
+
+BodyPut(i) ==
+  /\ wph[i] = "run" /\ i \in chk
+  /\ chk' = chk \ {i}
   /\ CASE sub[i] = "ctxStart" ->
-            \* child context START (async) registers the branch context (it exists already after a resubmission)
-            IF Rejected(Ctx(i), <<"p">>)
-              THEN End(i, "orphan", late, known)
-              ELSE BSet(i, reg \cup {Ctx(i)}, "atom", bpos[i], fout[i], "run", active,
-                        IF parentSent /\ Ctx(i) \notin reg THEN late \cup {<<i, "update">>} ELSE late,
-                        IF parentSent /\ Ctx(i) \notin reg THEN known \cup {"orphan-first-time-op"} ELSE known)
-       [] sub[i] = "atom" /\ Atom(i) = "step" ->
-            BSet(i, reg, "start", bpos[i], fout[i], "run", active, late, known)
+            BSet(i, reg \cup {Ctx(i)}, "atom", bpos[i], fout[i], "run", active, LateTag(i, TRUE),
+                 IF parentSent THEN known \cup {IF FixOrphanParent THEN "check-then-put" ELSE "orphan-first-time-op"} ELSE known)
        [] sub[i] = "start" ->
-            \* step START checkpoint: only the update's own id is looked up in _parent_done (faithful), unless fixed
-            IF Rejected(StepOp(i), Ctx(i))
-              THEN End(i, "orphan", late, known)
-              ELSE BSet(i, reg \cup {StepOp(i)}, "fn", bpos[i], fout[i], "run", active,
-                        IF parentSent THEN late \cup {<<i, "update">>, <<i, "fn">>} ELSE late,
-                        IF parentSent THEN known \cup {"orphan-first-time-op"} ELSE known)
-       [] sub[i] = "fn" ->
-            \* the user function runs (it was entered right after its START was accepted)
-            BSet(i, reg, "succeed", bpos[i], fout[i], "run", active, late, known)
+            BSet(i, reg \cup {StepOp(i)}, "fn", bpos[i], fout[i], "run", active, LateTag(i, TRUE),
+                 IF parentSent THEN known \cup {IF FixOrphanParent THEN "check-then-put" ELSE "orphan-first-time-op"} ELSE known)
        [] sub[i] = "succeed" ->
-            IF Rejected(StepOp(i), Ctx(i))
-              THEN End(i, "orphan", late, known)
-              ELSE BSet(i, reg, "atom", bpos[i] + 1, fout[i], "run", active, LateU(i), known)
-       [] sub[i] = "atom" /\ Atom(i) \in {"ok", "fail"} ->
-            \* child context SUCCEED / FAIL (sync)
-            IF Rejected(Ctx(i), <<"p">>)
-              THEN End(i, "orphan", late, known)
-              ELSE End(i, Atom(i), LateU(i), known)
+            BSet(i, reg, "atom", bpos[i] + 1, fout[i], "run", active, LateTag(i, FALSE),
+                 IF parentSent THEN known \cup {"check-then-put"} ELSE known)
+       [] OTHER ->    \* child context SUCCEED / FAIL (sync)
+            End(i, Atom(i), LateTag(i, FALSE), IF parentSent THEN known \cup {"check-then-put"} ELSE known)
+
+\* body steps that are not checkpoints
+BodyOther(i) ==
+  /\ wph[i] = "run" /\ i \notin chk /\ chk' = chk
+  /\ (~IsCkptPhase(i) \/ CtxExists(i))
+  /\ CASE CtxExists(i) -> BSet(i, reg, "atom", bpos[i], fout[i], "run", active, late, known)
+       [] sub[i] = "atom" /\ Atom(i) = "step" -> BSet(i, reg, "start", bpos[i], fout[i], "run", active, late, known)
+       [] sub[i] = "fn" -> BSet(i, reg, "succeed", bpos[i], fout[i], "run", active, late, known)     \* the user function runs
        [] sub[i] = "atom" /\ Atom(i) \in {"susp", "tsusp", "bte"} ->
             BSet(i, reg, "atom", IF Atom(i) = "tsusp" THEN bpos[i] + 1 ELSE bpos[i], Atom(i), "done", active - 1, late, known)
+       [] OTHER -> FALSE
+
+BodyStep(i) ==
+  /\ (BodyCheck(i) \/ BodyPut(i) \/ BodyOther(i))
   /\ UNCHANGED <<bst, scanIdx, scanT, scanI, succ, fail, event, suspExc, timers, mpc, mi, pdone, parentSent, items, reason,
                  maxActive, decidedAt, outcomeAt, result>>
 
@@ -326,14 +346,15 @@ TimerResubmit(i) ==
                  active, maxActive, decidedAt, outcomeAt, late, known, result>>
 
 H3 == UNCHANGED <<snap, suspSnap, resub>>
-MainStep == (MainSubmit \/ MainWake \/ MainCancel \/ MainRaiseSuspend \/ MainBuild \/ MainParentCkpt) /\ H3
+H4 == UNCHANGED chk
+MainStep == (MainSubmit \/ MainWake \/ MainCancel \/ MainRaiseSuspend \/ MainBuild \/ MainParentCkpt) /\ H3 /\ H4
 WorkerStep(i) ==
-  \/ (WorkerTake(i) /\ H3)
+  \/ (WorkerTake(i) /\ H3 /\ H4)
   \/ (BodyStep(i) /\ H3)
-  \/ (CbWrite(i) /\ snap' = [snap EXCEPT ![i] = {j \in Br : j # i /\ wph[j] = "run"}] /\ UNCHANGED <<suspSnap, resub>>)
-  \/ (CbDecide(i) /\ H3)
-  \/ (CbScan(i) /\ suspSnap' = (IF suspExc' # suspExc THEN snap[i] ELSE suspSnap) /\ UNCHANGED <<snap, resub>>)
-TimerStep(i) == TimerResubmit(i) /\ resub' = resub \cup {i} /\ UNCHANGED <<snap, suspSnap>>
+  \/ (CbWrite(i) /\ snap' = [snap EXCEPT ![i] = {j \in Br : j # i /\ wph[j] = "run"}] /\ UNCHANGED <<suspSnap, resub>> /\ H4)
+  \/ (CbDecide(i) /\ H3 /\ H4)
+  \/ (CbScan(i) /\ suspSnap' = (IF suspExc' # suspExc THEN snap[i] ELSE suspSnap) /\ UNCHANGED <<snap, resub>> /\ H4)
+TimerStep(i) == TimerResubmit(i) /\ resub' = resub \cup {i} /\ UNCHANGED <<snap, suspSnap>> /\ H4
 
 Quiet == /\ mpc = "Returned" \/ (mpc = "Wait" /\ ~event)
          /\ \A i \in Br : ~ENABLED WorkerStep(i)
@@ -387,11 +408,16 @@ ReasonConsistentStrict ==
      /\ (reason = "MIN_SUCCESSFUL_REACHED" => (MinSucc # 0 /\ Count(items, "SUCCEEDED") >= MinSucc))
      /\ (reason = "FAILURE_TOLERANCE_EXCEEDED" => Count(items, "FAILED") > 0)
 
-\* C10: nothing is recorded under the context, and no user function runs, after its completion record was handed over
-NoDescendantAfterParentDone == late = {} \/ (~FixOrphanParent /\ "orphan-first-time-op" \in known)
+\* C10: nothing is recorded under the context, and no user function is entered, after its completion record was handed over.
+\* Named deviation (not repaired): "check-then-put" - the orphan check and the enqueue are not atomic, so an update of an
+\* already known operation can slip behind the parent's completion record (tag "update-race").
+NoDescendantAfterParentDone ==
+  \A x \in late : \/ x[2] \in {"update-race", "fn-race"}
+                    \/ (~FixOrphanParent /\ "orphan-first-time-op" \in known)
 NoDescendantAfterParentDoneStrict == late = {}
-\* ... for operations that already existed this always holds
-NoKnownOpAfterParentDone == \A x \in late : x[2] # "update" \/ "orphan-first-time-op" \in known
+\* no user function of an operation first started after the completion record ever runs (holds on the repaired code)
+NoFunctionAfterParentDone == FixOrphanParent => \A x \in late : x[2] # "fn"      \* (only through the check-then-put race: "fn-race")
+NoKnownOpAfterParentDone == \A x \in late : x[2] \notin {"update"} \/ "orphan-first-time-op" \in known
 
 \* C07: a suspend is raised only when nobody is PENDING/RUNNING
 \* (a branch resubmitted by the timer thread after the deciding branch finished is outside the property's scope; see DESIGN)
